@@ -192,3 +192,45 @@ package refcount
 //@   opt frame = skip
 //@   requires r != nil && ctx != nil
 //@   ensures rel: result2 == nil ==> result1 != nil
+//
+// Access: the local Broadcast bcast guards currVal, currErr, currResolved, currNonce and currComplete, shared
+// between Access and the reference callback ($1, which the RefCount invokes inside its own critical section).
+// Access samples the state and the wait channel in one critical section; the goroutine $3 cancels the
+// callback's context when that channel fires; the callback's own result is returned only if the state
+// counter is unchanged after the callback.
+//@ func (*RefCount).Access
+//@   props C10 C13
+//@   opt frame = skip
+//@   requires r != nil && ctx != nil && cb != nil
+//@   localmonitor bcast guards currVal, currErr, currResolved, currNonce, currComplete
+//@   lbounded currNonce
+//@   assert select 1: selects(waitCh) && selects(done(ctx)) && waitCh != nil
+//@   loop 1 invariant inv: true
+//
+//@ closure (*RefCount).Access$2
+//@   props C10
+//@   assert exit: waitCh != nil && waitCh == bcast.ch && gettime(waitCh) == now() && val == currVal && err == currErr && resolved == currResolved && nonce == currNonce && complete == currComplete
+//
+//@ closure (*RefCount).Access$5
+//@   props C10
+//@   assert exit: sameNonce == (currNonce == nonce)
+//
+//@ func (*RefCount).Access$1
+//@   props C10 C13
+//@   opt frame = skip
+//@   localmonitor bcast guards currVal, currErr, currResolved, currNonce, currComplete
+//@   lbounded currNonce
+//@   captured bcast != nil
+//
+//@ closure (*RefCount).Access$1$1
+//@   props C10
+//@   assert exit: currVal == nowVal && currErr == nowErr && currResolved == nowResolved
+//
+//@ func (*RefCount).Access$3
+//@   props C10 C13
+//@   opt frame = skip
+//@   requires ctx != nil && cbCtx != nil && cbCancel != nil
+//@   assert select 1: selects(waitCh) && selects(done(ctx)) && selects(done(cbCtx))
+//
+//@ closure (*RefCount).Access$4
+//@   props C10
